@@ -74,7 +74,9 @@ def run_with_faults(case, faults):
             orig(self, parameters)
         finally:
             S._POISON[0] = False
-        if not f:
+        if (not f or f[0] == "nan") and plan.n_at_create_result is None:  # a non-finite evaluation did not *raise*
+            # only evaluations made by the optimiser count as "evaluated without error"; the re-evaluations
+            # create_result performs at the parameters it has already chosen must not vouch for themselves
             plan.ok_vectors.append(tuple(float(p.value) for p in parameters.all()))
 
     from vf.checks.c10 import diff_snapshots
@@ -173,7 +175,9 @@ def judge(case, faults, out, n_optimizer_evaluations):
         from glotaran.project import Scheme
 
         sch = out["scheme"]
-        fresh = Optimizer(Scheme(model=sch.model, parameters=res.optimized_parameters, data=sch.data, add_svd=False),
+        import dataclasses
+
+        fresh = Optimizer(dataclasses.replace(sch, parameters=res.optimized_parameters, add_svd=False),
                           verbose=False, raise_exception=True)  # fmt: skip
         lab, x, _, _ = res.optimized_parameters.get_label_value_and_bounds_arrays(exclude_non_vary=True)
         fresh._free_parameter_labels = lab
